@@ -344,9 +344,82 @@ def r10_3(chk):
         raise AnalysisError("R10.3 self-probe failed")
 
 
+def r10_5(chk):
+    chk.rule("R10.5", "pickle protocol pairs agree: for every class defining both __getstate__ and __setstate__, the keys __setstate__ requires are written by __getstate__ (dict state), or the tuple __getstate__ returns lists the attributes in the order of the __init__ parameters that `self.__init__(*args)` feeds them to (tuple state)")
+    n = 0
+    for ci in chk.repo.all_classes():
+        gs, ss = ci.methods.get("__getstate__"), ci.methods.get("__setstate__")
+        if gs is None or ss is None:
+            continue
+        m = ci.module
+        k = key(m, ci.name, "__getstate__ / __setstate__")
+        rets = [r for r in walk_no_nested(gs) if isinstance(r, ast.Return) and r.value is not None]
+        sp = [p for p in params_of(ss) if p != "self"]
+        if not rets or not sp:
+            chk.unresolved("R10.5", k, m.loc(gs), "no return / state parameter")
+            continue
+        state = sp[0]
+        # tuple state fed to __init__(*args)
+        tup = [r.value for r in rets if isinstance(r.value, ast.Tuple)]
+        star_init = any(isinstance(c, ast.Call) and norm(c.func) == "self.__init__" and any(isinstance(a, ast.Starred) and norm(a.value) == state for a in c.args) for c in walk_no_nested(ss))
+        if tup and star_init:
+            init = ci.resolve("__init__")
+            if not init or not isinstance(init[1], ast.FunctionDef):
+                chk.unresolved("R10.5", k, m.loc(gs), "__init__ not resolvable")
+                continue
+            ips = [p for p in params_of(init[1]) if p != "self"]
+            attrs = [e.attr if isinstance(e, ast.Attribute) and norm(e.value) == "self" else None for e in tup[0].elts]
+            n += 1
+            good = None not in attrs and attrs == ips[: len(attrs)]
+            # attribute names may carry a leading underscore
+            if not good and None not in attrs:
+                good = [a.lstrip("_") for a in attrs] == [p.lstrip("_") for p in ips[: len(attrs)]]
+            chk.decide(good, "R10.5", k, m.loc(gs), f"state tuple {attrs} matches __init__{tuple(ips[:len(attrs)])}", f"__getstate__ returns {attrs} but __setstate__ feeds the tuple to __init__{tuple(ips)}: after unpickling the values land in the wrong parameters")
+            continue
+        # tuple state unpacked attribute by attribute
+        unpack = [st for st in walk_no_nested(ss) if isinstance(st, ast.Assign) and isinstance(st.targets[0], ast.Tuple) and norm(st.value) == state]
+        if tup and unpack:
+            wa = [norm(e) for e in tup[0].elts]
+            ra = [norm(e) for e in unpack[0].targets[0].elts]
+            n += 1
+            chk.decide(wa == ra, "R10.5", k, m.loc(gs), f"state tuple {wa} unpacked in the same order", f"__getstate__ returns {wa} but __setstate__ unpacks into {ra}: attributes are exchanged after unpickling")
+            continue
+        # dict state
+        wk, open_ = set(), False
+        for r in rets:
+            if isinstance(r.value, (ast.Dict, ast.Call)) and not (isinstance(r.value, ast.Call) and call_name(r.value) != "dict"):
+                k2, o2 = _dict_keys(r.value)
+                wk |= k2
+                open_ |= o2
+            elif isinstance(r.value, ast.Name):
+                k2, o2 = writer_keys(gs)
+                wk |= k2
+                open_ |= o2
+            else:
+                open_ = True
+        req = set()
+        for st in _top_level_exprs(ss):
+            for c in _walk_unconditional(st):
+                if isinstance(c, ast.Call) and norm(c.func) == f"{state}.pop" and len(c.args) == 1 and isinstance(c.args[0], ast.Constant):
+                    req.add(c.args[0].value)
+                elif isinstance(c, ast.Subscript) and norm(c.value) == state and isinstance(c.slice, ast.Constant) and isinstance(c.ctx, ast.Load) and isinstance(c.slice.value, str):
+                    req.add(c.slice.value)
+        if not req:
+            chk.unresolved("R10.5", k, m.loc(ss), "__setstate__ requires no key unconditionally (conditional or delegated)")
+            continue
+        missing = req - wk
+        if missing and open_:
+            chk.unresolved("R10.5", k, m.loc(gs), f"__setstate__ requires {sorted(req)}; __getstate__'s key set is open")
+            continue
+        n += 1
+        chk.decide(not missing, "R10.5", k, m.loc(gs), f"__setstate__ requires {sorted(req)}, all written", f"__setstate__ requires {sorted(missing)} which __getstate__ does not write: unpickling raises KeyError")
+    chk.floor("R10.5", 4, "Span, LostSpan, Columns, Table on the pinned tree")
+
+
 def run(chk):
     r10_1(chk)
     r10_2(chk)
     r10_3(chk)
+    r10_5(chk)
     chk.assume("util/deserialise.py is imported (and registers its keys) before any other registering module, because each of them imports register_deserialiser from it")
     chk.assume("classes listed in NOT_SERIALISABLE are outside the serialisable API (each with its reason)")
